@@ -2,7 +2,7 @@
 """Copies the harness run-time (written once for package frugal) into the other harness packages."""
 import os, re
 V = os.path.dirname(os.path.abspath(__file__))
-PK = {"parser": "parser", "golang": "golang", "dartlang": "dartlang", "html": "html"}
+PK = {"parser": "parser", "golang": "golang", "dartlang": "dartlang", "html": "html", "compiler": "compiler"}
 for d, pkg in PK.items():
     for src, dst in [("libgo/zz_verif_rt.go", d + "/zz_verif_rt.go"), ("libgo_test/zz_verif_replay_test.go", d + "_test/zz_verif_replay_test.go")]:
         s = open(os.path.join(V, "harness", src)).read()
